@@ -1,5 +1,7 @@
 //! One driver per property (several share the lock-step walk).
 
+pub mod c07;
+pub mod c08;
 pub mod c10;
 pub mod c11;
 pub mod c16;
@@ -11,6 +13,8 @@ use crate::Args;
 pub fn run(a: &Args) -> i32 {
     match a.prop.as_str() {
         "C01" | "C02" | "C03" | "C04" | "C05" | "C06" | "C12" | "C13" | "C19" => walkprops::run(a),
+        "C07" => c07::run(a),
+        "C08" => c08::run(a),
         "C10" => c10::run(a),
         "C11" => c11::run(a),
         "C16" => c16::run(a),
@@ -40,6 +44,8 @@ pub fn replay(file: &str) -> i32 {
     let prop = v["property"].as_str().unwrap_or("").to_string();
     match prop.as_str() {
         "C01" | "C02" | "C03" | "C04" | "C05" | "C06" | "C12" | "C13" | "C19" => walkprops::replay(&v),
+        "C07" => c07::replay(&v),
+        "C08" => c08::replay(&v),
         "C10" => c10::replay(&v),
         "C11" => c11::replay(&v),
         "C16" => c16::replay(&v),
